@@ -31,6 +31,9 @@ def assert_tree():
     warnings.filterwarnings("ignore")
     import openaerostruct
 
+    import openmdao.api  # noqa: F401  (installs its own "always" warning filters at import)
+
+    warnings.filterwarnings("ignore")
     f = os.path.abspath(openaerostruct.__file__)
     if not f.startswith(REPO + os.sep):
         raise HarnessError("openaerostruct imported from %s, expected under %s" % (f, REPO))
